@@ -103,3 +103,114 @@ example : tokens (bytesOf "9223372036854775808") = .ok ⟨[], some ⟨1, 1, .bad
 example : tokens (bytesOf "0x") = .ok ⟨[], some ⟨1, 1, .badNumber⟩, 1, 1⟩ := by decide
 
 end Trion.Lex
+
+namespace Trion.Lex
+
+/-- C11.d `char_lit` (one-byte characters)  `'c'` for every ASCII character that may be written raw —
+TAB and the printable characters other than the backslash (the apostrophe included: `'''`) — yields the
+number `c`. -/
+theorem char_lit_ascii : ∀ n, n < 256 → (n = 9 ∨ (32 ≤ n ∧ n ≤ 126 ∧ n ≠ 92)) →
+    tokens [39, n.toUInt8, 39] = .ok ⟨[⟨1, 1, .num (Int.ofNat n)⟩], none, 1, 4⟩ := by
+  decide +kernel
+
+/-- C11.e `char_lit` (escapes)  `'\t' '\n' '\r' '\"' '\'' '\\'` yield 9, 10, 13, 34, 39, 92. -/
+theorem char_lit_escape :
+    ∀ p ∈ [(116, 9), (110, 10), (114, 13), (34, 34), (39, 39), (92, 92)],
+      tokens [39, 92, (p.1 : Nat).toUInt8, 39] = .ok ⟨[⟨1, 1, .num (Int.ofNat p.2)⟩], none, 1, 5⟩ := by
+  decide +kernel
+
+/-- C11.f `lit_reject` (characters)  Any other single ASCII byte between apostrophes — control
+characters, DEL, the lone backslash — and any escape letter other than the six above is rejected with
+`BadCharacter` and no token. -/
+theorem char_reject_ascii : ∀ n, n < 128 → ¬ (n = 9 ∨ (32 ≤ n ∧ n ≤ 126 ∧ n ≠ 92)) →
+    tokens [39, n.toUInt8, 39] = .ok ⟨[], some ⟨1, 1, .badCharacter⟩, 1, 1⟩ := by
+  decide +kernel
+
+theorem char_reject_escape : ∀ n, n < 128 → n ∉ [116, 110, 114, 34, 39, 92] →
+    tokens [39, 92, n.toUInt8, 39] = .ok ⟨[], some ⟨1, 1, .badCharacter⟩, 1, 1⟩ := by
+  decide +kernel
+
+/-- C11.g `str_lit` (each escape)  `"\0" "\t" "\n" "\r" "\"" "\'" "\\"` yield the one-character strings
+NUL, TAB, LF, CR, `"`, `'`, `\`. -/
+theorem str_lit_escape :
+    ∀ p ∈ [(48, 0), (116, 9), (110, 10), (114, 13), (34, 34), (39, 39), (92, 92)],
+      tokens [34, 92, (p.1 : Nat).toUInt8, 34] = .ok ⟨[⟨1, 1, .str [(p.2 : Nat).toUInt8]⟩], none, 1, 5⟩ := by
+  decide +kernel
+
+/-- C11.h `lit_reject` (strings)  An unknown escape letter, and a raw control character or DEL inside a
+string, are rejected with `BadString` and no token. -/
+theorem str_reject_escape : ∀ n, n < 128 → n ∉ [48, 116, 110, 114, 34, 39, 92, 117] →
+    tokens [34, 92, n.toUInt8, 34] = .ok ⟨[], some ⟨1, 1, .badString⟩, 1, 1⟩ := by
+  decide +kernel
+
+theorem str_reject_control : ∀ n, n < 128 → (n < 32 ∧ n ≠ 9) ∨ n = 127 →
+    tokens [34, 97, n.toUInt8, 98, 34] = .ok ⟨[], some ⟨1, 1, .badString⟩, 1, 1⟩ := by
+  decide +kernel
+
+/-- C11.i `lit_reject` (witnesses for the remaining classes)  missing closing quote; surrogate,
+out-of-range, non-hex, empty, signed and over-long `\u{…}`; `\u` without brace; and one accepted
+`\u{…}` in each digit case for contrast. -/
+theorem lit_reject_witnesses :
+    tokens (bytesOf "\"abc") = .ok ⟨[], some ⟨1, 1, .badString⟩, 1, 1⟩ ∧
+    tokens (bytesOf "'a") = .ok ⟨[], some ⟨1, 1, .badCharacter⟩, 1, 1⟩ ∧
+    tokens (bytesOf "\"\\u{D800}\"") = .ok ⟨[], some ⟨1, 1, .badString⟩, 1, 1⟩ ∧
+    tokens (bytesOf "\"\\u{dfff}\"") = .ok ⟨[], some ⟨1, 1, .badString⟩, 1, 1⟩ ∧
+    tokens (bytesOf "\"\\u{110000}\"") = .ok ⟨[], some ⟨1, 1, .badString⟩, 1, 1⟩ ∧
+    tokens (bytesOf "\"\\u{4G}\"") = .ok ⟨[], some ⟨1, 1, .badString⟩, 1, 1⟩ ∧
+    tokens (bytesOf "\"\\u{}\"") = .ok ⟨[], some ⟨1, 1, .badString⟩, 1, 1⟩ ∧
+    tokens (bytesOf "\"\\u{+41}\"") = .ok ⟨[], some ⟨1, 1, .badString⟩, 1, 1⟩ ∧
+    tokens (bytesOf "\"\\u{-41}\"") = .ok ⟨[], some ⟨1, 1, .badString⟩, 1, 1⟩ ∧
+    tokens (bytesOf "\"\\u{0000041}\"") = .ok ⟨[], some ⟨1, 1, .badString⟩, 1, 1⟩ ∧
+    tokens (bytesOf "\"\\u41\"") = .ok ⟨[], some ⟨1, 1, .badString⟩, 1, 1⟩ ∧
+    tokens (bytesOf "\"\\u{e9}\\u{20AC}\"") = .ok ⟨[⟨1, 1, .str [0xC3, 0xA9, 0xE2, 0x82, 0xAC]⟩], none, 1, 17⟩ := by
+  decide +kernel
+
+end Trion.Lex
+
+namespace Trion.Lex
+
+/-- C11.j `str_lit_partial`  A string literal without escapes over TAB and the printable ASCII characters
+(other than `"` and `\`), of any length, yields exactly the text between the quotes.
+
+Full statement (`str_lit`), NOT proved in Lean: for every list of Unicode scalar values, rendered with any
+mixture of raw UTF-8 (for characters that may be written raw) and the escapes `\0 \t \n \r \" \' \\
+\u{hex}`, `tokens ("\"" ++ rendering ++ "\"") = [str (UTF-8 of the scalars)]`. Missing: the induction
+over the `strLoop` iterations with the accumulated `escaped` buffer, and `decodeChar (encodeChar c) = c`
+for multi-byte `c` (needed for raw multi-byte characters and for `\u{…}`); likewise `char_lit` for
+multi-byte characters. These cases are covered by the correspondence run (every scalar value, raw and as
+`\u{hex}`, in character and string literals) and by the byte-table theorems above. -/
+theorem str_lit_raw_partial (body : Bytes) (hb : ∀ b ∈ body, isRawStrByte b = true) :
+    tokens (34 :: body ++ [34]) = .ok ⟨[⟨1, 1, .str body⟩], none, 1, 1 + (body.length + 2)⟩ := by
+  have hascii : ∀ b ∈ (34 : UInt8) :: body ++ [34], b.toNat < 128 := by
+    intro b hx
+    simp at hx
+    rcases hx with rfl | hx | rfl
+    · decide
+    · have := hb b hx
+      simp [isRawStrByte] at this
+      omega
+    · decide
+  unfold tokens
+  rw [new_ascii _ hascii]
+  have hnext : nextToken ⟨34 :: body ++ [34], false, 1, 1⟩ =
+      .tok ⟨1, 1, .str body⟩ ⟨[], false, 1, 1 + (body.length + 2)⟩ := by
+    unfold nextToken
+    rw [skipLoop_none _ ⟨34 :: body ++ [34], false, 1, 1⟩ 34 (body ++ [34]) (by simp) (by decide) (by decide)]
+    simp only
+    have : (!((34 : UInt8) :: body ++ [34]).isEmpty) = true := by simp
+    simp only [this, if_true]
+    rw [doNext_string _ 34 (body ++ [34]) (by simp) (by decide), lexString_raw body hb]
+  have hrun : ∀ n, run (n + 2) ⟨34 :: body ++ [34], false, 1, 1⟩ =
+      .ok ⟨[⟨1, 1, .str body⟩], none, 1, 1 + (body.length + 2)⟩ := by
+    intro n
+    rw [run, hnext]
+    simp only
+    rw [run, nextToken_ended]
+    simp [Out.push]
+  exact hrun _
+
+example : isRawStrByte 9 = true ∧ isRawStrByte 126 = true ∧ isRawStrByte 34 = false ∧ isRawStrByte 10 = false := by
+  decide
+example : tokens (bytesOf "\"a\tb c\"") = .ok ⟨[⟨1, 1, .str (bytesOf "a\tb c")⟩], none, 1, 8⟩ := by decide
+
+end Trion.Lex
